@@ -205,9 +205,11 @@ void bspline_deriv_nonzero(const double* knots, const unsigned nknots,
 	double temp, a;
 	double delta_l[n], delta_r[n];
 	
-	/* Special case for constant splines */
-	if (n == 0)
+	/* Special case for constant splines: the derivative vanishes */
+	if (n == 0) {
+		biatx[0] = 0;
 		return;
+	}
 	
 	/*
 	 * Handle the (rare) cases where x is outside the full
